@@ -101,6 +101,15 @@ type StrictHTTPClient struct {
 	client *http.Client
 }
 
+// WithoutRedirects makes the client return 3xx responses as they are, instead of following them (to whatever scheme, host or
+// path the Location header names). To be used when the URL that is requested is security relevant, e.g. when resolving did:web DIDs.
+func (s *StrictHTTPClient) WithoutRedirects() *StrictHTTPClient {
+	s.client.CheckRedirect = func(_ *http.Request, _ []*http.Request) error {
+		return http.ErrUseLastResponse
+	}
+	return s
+}
+
 func (s *StrictHTTPClient) Do(req *http.Request) (*http.Response, error) {
 	if StrictMode && req.URL.Scheme != "https" {
 		return nil, errors.New("strictmode is enabled, but request is not over HTTPS")
